@@ -100,6 +100,21 @@ func execC10(t *testing.T, sc *world.Scenario) (*oracle.Result, string) {
 			if !merge(oracle.C10(obs), fsc) {
 				return total, ""
 			}
+			if fsc.Logger != "" && at%4 == 1 {
+				// the same failing store, once more without the logger: logging must not change
+				// what a failure does either (the error paths are where the cache logs most)
+				plain := withFaults(sc, f)
+				pobs := world.Run(t, plain)
+				if oracle.HarnessProblem(pobs) == "" {
+					va, vb := oracle.Vector(pobs), oracle.Vector(obs)
+					if strings.Join(va, "\n") != strings.Join(vb, "\n") {
+						total.Fail("C10", "logging-changes-behaviour", -1, "the same history with the same store fault (%s at op %d) behaves differently with a %s logger:\n discard: %v\n %s:   %v", f.Kind, at, fsc.Logger, va, fsc.Logger, vb)
+						total.Replay = fsc
+						return total, ""
+					}
+					total.Label("faulted-logger-differential")
+				}
+			}
 		}
 	}
 	// pairs of placements for short histories (thorough tier)
